@@ -14,8 +14,8 @@ class C15(core.Check):
     QUICK_CASES = 500
     THOROUGH_CASES = 5000
     TRUSTED = ['hand model model/Protect.v of the read/write loops of converter/protect.py and of the B/P file '
-               'framing (magic byte, EOF byte) tied by correspondence; ASCII format and main._convert by '
-               'correspondence + round-trip oracle only (tokeniser round-trip is C17)']
+               'framing (magic byte, EOF byte) tied by correspondence; ASCII format and the command-line converter (main._convert) by '
+               'round-trip / equal-files oracle only (tokeniser round-trip is C17)']
     RULE = ('cipher cases: random byte strings (lengths dense at 0,1,142..144,255..287) through '
             'converter.protect/unprotect; file cases: generated programs SAVEd as B, P, A in a real Session on a disk mount and on a cassette image (image sizes dense at tape block boundaries k*256-1..k*256+1), '
             'file bytes compared with the model, then LOADed in a fresh Session and program memory / LIST '
@@ -73,6 +73,10 @@ class C15(core.Check):
         prog.sort()
         return prog
 
+    def _do_convert(self, case):
+        # the converter starts a full session per call: run it on a third of the file cases
+        return int(core.sha(case), 16) % 3 == 0 or len(case['p']) <= 2
+
     def pad_to_block(self, prog, target):
         """append/adjust a REM line so that the saved image (program memory minus the leading NUL) has
         exactly `target` bytes (tape block boundaries), when reachable"""
@@ -128,6 +132,28 @@ class C15(core.Check):
                 with core.time_limit(60):
                     s5.execute('MERGE "TA"')
                     loaded['MERGE'] = bytes(s5._impl.program.bytecode.getvalue())
+            # command-line converter (main._convert through pcbasic.main.main) on the files just saved
+            conv = {}
+            if self._do_convert(case):
+                import importlib; pcmain = importlib.import_module("pcbasic.main")
+                import logging
+                for src, mode in (('TB.BAS', 'a'), ('TB.BAS', 'p'), ('TA.BAS', 'b'), ('TP.BAS', 'b'), ('TP.BAS', 'a')):
+                    outp = os.path.join(d, 'CV_%s_%s' % (src[:2], mode))
+                    try:
+                        with core.time_limit(60):
+                            lvl = logging.getLogger().level
+                            logging.getLogger().setLevel(logging.CRITICAL)
+                            try:
+                                pcmain.main('--convert=%s' % mode, os.path.join(d, src), outp)
+                            finally:
+                                logging.getLogger().setLevel(lvl)
+                    except SystemExit:
+                        pass
+                    except BaseException as e:
+                        conv[(src, mode)] = 'converter raised %s: %s' % (type(e).__name__, e)
+                        continue
+                    conv[(src, mode)] = open(outp, 'rb').read() if os.path.exists(outp) else None
+            loaded['CONV'] = conv
             # cassette device: SAVE / LOAD through a CAS image (B, P and A formats), fresh session for LOAD
             tape = os.path.join(d, 'tape.cas')
             open(tape, 'wb').close()
@@ -190,6 +216,26 @@ class C15(core.Check):
                 common.rmtree(d)
         return cache[key]
 
+    def known_match(self, finding, case, out):
+        # K15a: tokenised input keeps its EOF marker, the converter output is exactly one byte longer
+        if finding.get('id') != 'K15a' or case.get('k') != 'file':
+            return False
+        why = self.oracle(case, out)
+        return bool(why) and why.startswith('K15a: ')
+
+    def known_rerun(self, finding):
+        case = {'k': 'file', 'p': [[10, 'PRINT 1']]}
+        self.__dict__.setdefault('_saves', {}).pop(core.sha(case), None)
+        why = self.oracle(case, self.impl(case))
+        return bool(why) and why.startswith('K15a: ')
+
+    def shrink_candidates(self, case):
+        if case.get('k') == 'cipher':
+            return core.Check.shrink_candidates(self, case)
+        # programs: drop whole lines only
+        p = case.get('p', [])
+        return [dict(case, p=p[:i] + p[i + 1:]) for i in range(len(p))] if len(p) > 1 else []
+
     def nontrivial(self, case, out):
         return len(case.get('b') or case.get('p') or []) > 0
 
@@ -229,6 +275,18 @@ class C15(core.Check):
             return 'ASCII SAVE/LOAD changed a program whose listing re-enters identically'
         if c4[:self.prog_end(c4)] == code[:prog_end] and l3 != listing:
             return 'LIST after ASCII SAVE/LOAD differs from the original listing although the listing re-enters as the same program'
+        conv = loaded.get('CONV') or {}
+        same = c4[:self.prog_end(c4)] == code[:prog_end]
+        want = {('TB.BAS', 'a'): files['TA.BAS'], ('TB.BAS', 'p'): files['TP.BAS'], ('TP.BAS', 'b'): files['TB.BAS'],
+                ('TP.BAS', 'a'): files['TA.BAS'], ('TA.BAS', 'b'): files['TB.BAS'] if same else None}
+        for key, got in conv.items():
+            if isinstance(got, str):
+                return 'command-line converter %s -> %s: %s' % (key[0], key[1], got)
+            exp = want.get(key)
+            if exp is not None and got != exp:
+                tag = 'K15a: ' if (key[0] == 'TB.BAS' and got is not None and len(got) == len(exp) + 1) else ''
+                return (tag + 'command-line converter %s --convert=%s wrote %d bytes that differ from what SAVE wrote in a session '
+                        '(%d bytes)' % (key[0], key[1], len(got or b''), len(exp)))
         cm = loaded.get('MERGE')
         if cm is not None and c4[:self.prog_end(c4)] == code[:prog_end] and cm[:self.prog_end(cm)] != code[:prog_end]:
             return 'MERGE of the ASCII file into an empty program does not restore a program whose listing re-enters identically'
